@@ -122,7 +122,7 @@ list, ordered lexicographically; the theorems hold for every linear order), `mkK
 variable {κ : Type} [DecidableEq κ] [LT κ] [DecidableLT κ] [LE κ] [DecidableLE κ] (mkKey : Nat → Nat → κ)
 variable {α : Type} [Add α] [Mul α] [OfNat α 0] [OfNat α 1] [DecidableEq α]
 
-/-- `uset.iloc[:, :0].reset_index().values`: the `[id, dof]` rows -/
+/-- `uset.iloc[:, :0].reset_index().values`: the `[id, dof]` rows of a table (of the g-set rows since fix e74e9b9: `iddofG`) -/
 def iddofOf (tbl : List Row) : List κ := tbl.map fun r => mkKey r.1 r.2.1
 
 def dofRows (dof : List (Nat × Nat)) : List κ := dof.map fun d => mkKey d.1 d.2
@@ -146,13 +146,23 @@ def selSet (iddof : List κ) (xs : List Nat) (dof : List κ) (guard : Bool) :
 def anyCols (A : M α) : List Nat :=
   (List.range A.c).filter fun j => A.r.any fun row => row[j]? != some 0 && (row[j]?).isSome
 
-/-- `_proc_mset(nas, se, dof)`: `(m, gm)` restricted to the requested m-set DOF; `none` = `hasm == 0` -/
-def procMset (mk : Masks) (tbl : List Row) (gm : Option (M α)) (dof : List κ) :
+/-- the rows of the table a boolean vector selects (`uset.iloc[pv]`; pandas refuses a vector of another length) -/
+def rowsOfMask (tbl : List Row) (pv : List Bool) : List Row := ((tbl.zip pv).filter (·.2)).map (·.1)
+
+/-- `uset.iloc[mksetpv(uset, "p", "g"), :0].reset_index().values`: the `[id, dof]` rows of the g-set, in table order -/
+def iddofG (mk : Masks) (tbl : List Row) : Except TErr (List κ) := do
+  let pv ← liftE (mksetpv (tbl.map (·.2.2)) mk.p mk.g)
+  if pv.length ≠ tbl.length then .error (.base .index)
+  else .ok (iddofOf mkKey (rowsOfMask tbl pv))
+
+/-- `_proc_mset(nas, se, dof)` with the `[id, dof]` table evaluated by `idd` at the place of the `iddof = …` line -/
+def procMsetWith (idd : Except TErr (List κ)) (mk : Masks) (tbl : List Row) (gm : Option (M α)) (dof : List κ) :
     Except TErr (Option (List Nat × M α)) := do
   let m ← setPos tbl mk.g mk.m
   if m = [] then .ok none
   else do
-    let pvdofm ← selIn (iddofOf mkKey tbl) m dof
+    let iddof ← idd
+    let pvdofm ← selIn iddof m dof
     if pvdofm = [] then .ok none
     else do
       let m' ← takeIdx m pvdofm
@@ -161,6 +171,11 @@ def procMset (mk : Masks) (tbl : List Row) (gm : Option (M α)) (dof : List κ) 
       | some g => do
           let g' ← rowsAt g pvdofm
           .ok (some (m', g'))
+
+/-- `_proc_mset(nas, se, dof)` -/
+def procMset (mk : Masks) (tbl : List Row) (gm : Option (M α)) (dof : List κ) :
+    Except TErr (Option (List Nat × M α)) :=
+  procMsetWith (iddofG mkKey mk tbl) mk tbl gm dof
 
 /-- the rows of the final `tran[pv]`: `pv, pv2 = mat_intersect(fulldof, dof, 2)`; `RuntimeError`
 when a requested DOF is in none of the recovery sets -/
@@ -230,10 +245,11 @@ structure UpSel (α : Type) where
 def UpSel.sets (x : UpSel α) : List Nat :=
   x.t' ++ x.o' ++ (match x.pm with | some y => y.1 | none => []) ++ x.q' ++ x.s'
 
-def upSelect (mk : Masks) (tbl : List Row) (got goq gm : Option (M α)) (dofr : List κ) :
+/-- the selections of `formtran` (`se != 0`) with the table evaluated by `idd` -/
+def upSelectWith (idd : Except TErr (List κ)) (mk : Masks) (tbl : List Row) (got goq gm : Option (M α)) (dofr : List κ) :
     Except TErr (UpSel α) := do
-  let iddof := iddofOf mkKey tbl
   let t ← setPos tbl mk.g mk.t
+  let iddof ← idd
   let st ← selSet iddof t dofr false
   let o ← setPos tbl mk.g mk.o
   let so ← selSet iddof o dofr false
@@ -249,7 +265,7 @@ def upSelect (mk : Masks) (tbl : List Row) (got goq gm : Option (M α)) (dofr : 
     | none => do
         let t1 ← setPos tbl mk.g mk.t
         pure ⟨List.replicate o1 (zeroRow t1.length), t1.length⟩ : Except TErr (M α))
-  let pm ← procMset mkKey mk tbl gm dofr
+  let pm ← procMsetWith idd mk tbl gm dofr
   let tnoq ← (match pm with
     | some _ => do
         let t_n ← setPos tbl mk.n mk.t
@@ -262,6 +278,11 @@ def upSelect (mk : Masks) (tbl : List Row) (got goq gm : Option (M α)) (dofr : 
   let s ← setPos tbl mk.g mk.s
   let ss ← selSet iddof s dofr true
   .ok ⟨st.1, st.2, so.1, so.2, gotM, goqM, pm, tnoq, sq.1, sq.2, ss.1, ss.2⟩
+
+/-- the selections of `formtran` (`se != 0`) -/
+def upSelect (mk : Masks) (tbl : List Row) (got goq gm : Option (M α)) (dofr : List κ) :
+    Except TErr (UpSel α) :=
+  upSelectWith (iddofG mkKey mk tbl) mk tbl got goq gm dofr
 
 /-- `tran[R:R+len(x), cols] = np.eye(n)[pv]`: the rows of a retained set (t, q) -/
 def eyeBlock (w n : Nat) (cols pv : List Nat) : Except TErr (List (List α)) := do
@@ -292,35 +313,39 @@ def upBlocks (x : UpSel α) (t_a q_a : List Nat) : Except TErr (List (List α)) 
   let sRows : List (List α) := x.s'.map fun _ => zeroRow w
   .ok (tRows ++ oRows ++ mRows ++ qRows ++ sRows)
 
-/-- `formtran(nas, se, dof, gset)` for `se != 0` on the table, `got` / `goq` / `gm` of that SE (`none` =
-the dictionary has no entry) -/
-def formtranUp (mk : Masks) (tbl : List Row) (got goq gm : Option (M α)) (req : Request) :
+/-- `formtran(nas, se, dof, gset)` for `se != 0` with the table evaluated by `idd` -/
+def formtranUpWith (idd : Except TErr (List κ)) (mk : Masks) (tbl : List Row) (got goq gm : Option (M α)) (req : Request) :
     Except TErr (M α × List (Nat × Nat)) := do
   let (pvdof, dof) ← liftE (mkdofpv mk.p tbl (.mask mk.g) req true)
   let t_a ← setPos tbl mk.a mk.t
   let q_a ← setPos tbl mk.a mk.q
   let a ← liftE (mksetpv (tbl.map (·.2.2)) mk.g mk.a)
   if pvdof.all (fun i => a[i]? == some true) then do
-    -- every requested DOF is in the a-set
     let (pvdofa, _) ← liftE (mkdofpv mk.p tbl (.mask mk.a) (.rows dof) true)
     let na := a.count true
     let rows ← takeIdx ((List.range na).map fun k => unitRow (α := α) na k) pvdofa
     .ok (⟨rows, na⟩, dof)
   else do
     let dofr := dofRows mkKey dof
-    let x ← upSelect mkKey mk tbl got goq gm dofr
+    let x ← upSelectWith idd mk tbl got goq gm dofr
+    -- the same `iddof` is used again by the final re-ordering (`idd` is a value: when the selections succeeded it is `.ok`)
+    let iddof ← idd
     let rows ← upBlocks x t_a q_a
-    let out ← reorder (iddofOf mkKey tbl) x.sets dofr pvdof.length rows (x.gotM.c + x.goqM.c)
+    let out ← reorder iddof x.sets dofr pvdof.length rows (x.gotM.c + x.goqM.c)
     .ok (out, dof)
 
-/-- `_formtran_0(nas, dof, gset)`: the residual; `phg` / `pha` / `gm` are the entries for SE 0 -/
-def formtran0 (mk : Masks) (tbl : List Row) (phg pha gm : Option (M α)) (req : Request) (gset : Bool) :
+/-- `formtran(nas, se, dof, gset)` for `se != 0` -/
+def formtranUp (mk : Masks) (tbl : List Row) (got goq gm : Option (M α)) (req : Request) :
+    Except TErr (M α × List (Nat × Nat)) :=
+  formtranUpWith mkKey (iddofG mkKey mk tbl) mk tbl got goq gm req
+
+/-- `_formtran_0(nas, dof, gset)` with the `[id, dof]` table evaluated by `idd` at the place of the `iddof = …` line (also
+inside `_proc_mset`); the `gset` / `phg` branches do not use it -/
+def formtran0With (idd : Except TErr (List κ)) (mk : Masks) (tbl : List Row) (phg pha gm : Option (M α)) (req : Request) (gset : Bool) :
     Except TErr (M α × List (Nat × Nat)) := do
   let (pvdof, dof) ← liftE (mkdofpv mk.p tbl (.mask mk.g) req true)
   if gset then do
     let ng ← setPos tbl mk.p mk.g
-    -- `tran[np.arange(len(pvdof)), pvdof] = 1.0` (since fix 061ccd9; before it `tran[:, pvdof] = np.eye(n)`, where
-    -- the later column assignment won and the first of two rows of a DOF requested twice stayed zero: F68)
     if pvdof.any (fun c => decide (ng.length ≤ c)) then .error (.base .index)
     else .ok (⟨pvdof.map fun c => unitRow (α := α) ng.length c, ng.length⟩, dof)
   else match phg with
@@ -331,21 +356,20 @@ def formtran0 (mk : Masks) (tbl : List Row) (phg pha gm : Option (M α)) (req : 
     match pha with
     | none => .error .runtime
     | some pa => do
-        let iddof := iddofOf mkKey tbl
         let dofr := dofRows mkKey dof
         let o ← setPos tbl mk.g mk.o
+        let iddof ← idd
         let vo ← (if o = [] then pure [] else selIn iddof o dofr)
         if vo ≠ [] then .error .runtime
         else do
           let a ← setPos tbl mk.g mk.a
           let pvdofa ← selIn iddof a dofr
           let a' ← takeIdx a pvdofa
-          let pm ← procMset mkKey mk tbl gm dofr
+          let pm ← procMsetWith idd mk tbl gm dofr
           let _ ← (match pm with
             | some x => do
                 let o_n ← liftE (mksetpv (tbl.map (·.2.2)) mk.n mk.o)
                 if o_n.any id then do
-                  -- gm[:, o_n] with a boolean mask over the columns
                   if o_n.length ≠ x.2.c then .error (.base .index)
                   else
                     let cols := positions o_n
@@ -369,6 +393,11 @@ def formtran0 (mk : Masks) (tbl : List Row) (phg pha gm : Option (M α)) (req : 
           let sRows : List (List α) := s'.map fun _ => zeroRow pa.c
           let out ← reorder iddof sets dofr pvdof.length (aRows.r ++ mRows ++ sRows) pa.c
           .ok (out, dof)
+
+/-- `_formtran_0(nas, dof, gset)` -/
+def formtran0 (mk : Masks) (tbl : List Row) (phg pha gm : Option (M α)) (req : Request) (gset : Bool) :
+    Except TErr (M α × List (Nat × Nat)) :=
+  formtran0With mkKey (iddofG mkKey mk tbl) mk tbl phg pha gm req gset
 
 /-- `formtran(nas, se, dof, gset)` -/
 def formtran (mk : Masks) (d : NasT α) (se : Nat) (req : Request) (gset : Bool) :
